@@ -538,3 +538,9 @@ Proof.
   intros len Hin. destruct (Hr len Hin) as [A B]. split; [exact A|]. intros i Hi. apply B. cbn [init n] in Hn. lia.
 Qed.
 Print Assumptions recon_sound.
+
+Lemma c02_example :
+  let P := TestParity 4 in let X := fun i => N.of_nat (S i) in
+  let bl := [(0%nat,1);(2%nat,3);(9%nat,2);(10%nat,1);(14%nat,6)] in
+  Forall (consistent P 4 X) bl /\ In (Done 4) (snd (fst (run P 2 8 (init 4 1) bl))).
+Proof. cbv zeta. split; [repeat constructor| vm_compute; tauto]. Qed.
